@@ -378,7 +378,7 @@ MUTANTS = [
     {'id': 'remove_old_class_unfolded', 'file': 'vmf.py', 'find': "_remove_copyset(self.map.by_class, (orig_val or '').casefold(), self)", 'replace': "_remove_copyset(self.map.by_class, orig_val or '', self)", 'expect': 'C07.I1'},
     {'id': 'pop_direct', 'file': 'vmf.py', 'find': "                value = self._keys[k]\n                # Use __delitem__, so by_class/by_target and node IDs are updated.\n                del self[k]\n                return value", 'replace': "                return self._keys.pop(k)", 'expect': 'C07.I2'},
     {'id': 'unguarded_add', 'file': 'vmf.py', 'find': "            if self in self.map.entities or self is self.map.spawn:\n                self.map.by_target[None].add(self)", 'replace': "            self.map.by_target[None].add(self)", 'expect': 'C07.I3'},
-    {'id': 'remove_ent_forgets_target', 'file': 'vmf.py', 'find': "        _remove_copyset(self.by_target, item['targetname'].casefold() or None, item)\n        if 'nodeid' in item:", 'replace': "        if 'nodeid' in item:", 'expect': 'C07.I3'},
+    {'id': 'remove_ent_forgets_target', 'file': 'vmf.py', 'find': "        _remove_copyset(self.by_target, item['targetname'].casefold() or None, item)\n        # Neither the entity ID", 'replace': "        # Neither the entity ID", 'expect': 'C07.I3'},
     {'id': 'setitem_no_remove', 'file': 'vmf.py', 'find': "            _remove_copyset(self.map.by_class, (orig_val or '').casefold(), self)\n", 'replace': "", 'expect': 'C07.I3'},
     {'id': 'spawn_reclass_allowed', 'file': 'vmf.py', 'find': "                    raise ValueError('The worldspawn entity must remain worldspawn!')", 'replace': "                    pass", 'expect': 'C07.I4'},
     {'id': 'copyset_live_iteration', 'file': 'vmf.py', 'find': "        cur_items: frozenset[T] = frozenset(self)\n\n        yield from cur_items", 'replace': "        cur_items: frozenset[T] = frozenset(self)\n\n        yield from set.__iter__(self)", 'expect': 'C07.I5'},
